@@ -112,6 +112,26 @@ fn prefix_successor(prefix: &[u8]) -> Option<Vec<u8>> {
     Some(upper)
 }
 
+/// Verification hooks (compiled only with `--cfg d_engine_verif`; add-only, no behaviour change).
+///
+/// `scan_prefix` calls the registered callback between the end of the iteration and the read of
+/// `last_applied_index`, so that an out-of-tree harness can run a concurrent `apply_chunk` exactly
+/// in that window. Without a callback it does nothing.
+#[cfg(d_engine_verif)]
+static VERIF_ROCKS_SCAN_GAP: std::sync::OnceLock<fn()> = std::sync::OnceLock::new();
+
+/// Register the callback described at `VERIF_ROCKS_SCAN_GAP` (first registration wins).
+#[cfg(d_engine_verif)]
+pub fn verif_set_rocks_scan_gap_callback(f: fn()) {
+    let _ = VERIF_ROCKS_SCAN_GAP.set(f);
+}
+
+/// Exposes the private `prefix_successor` to an out-of-tree harness.
+#[cfg(d_engine_verif)]
+pub fn verif_prefix_successor(prefix: &[u8]) -> Option<Vec<u8>> {
+    prefix_successor(prefix)
+}
+
 impl RocksDBStateMachine {
     /// Opens (or creates) a dedicated RocksDB instance for state machine storage.
     ///
@@ -671,6 +691,11 @@ impl RocksDBStateMachine {
                 break;
             }
             entries.push((Bytes::copy_from_slice(&k), Bytes::copy_from_slice(&v)));
+        }
+
+        #[cfg(d_engine_verif)]
+        if let Some(f) = VERIF_ROCKS_SCAN_GAP.get() {
+            f();
         }
 
         let revision = self.last_applied_index.load(Ordering::SeqCst);
